@@ -393,6 +393,23 @@ def gen_line_cases(tier, rng):
                        "seed": rng.randrange(1 << 30)}
 
 
+def gen_two_domain_cases(tier, rng):
+    """Two source domains that are both usable at the same step (experiments on different non-empty subsets of the treatments, nearly
+    every other node observed), both orders of the user's dictionaries."""
+    for _ in range(500 if tier == "quick" else 8000):
+        n = rng.choice([3, 4, 4])
+        vs, d, u = oracles.random_admg(rng, n, p_d=rng.choice([0.4, 0.6]), p_u=rng.choice([0.15, 0.3]))
+        u = u[:2]
+        y = rng.choice(vs)
+        xs = rng.sample([v for v in vs if v != y], rng.choice([1, 2, 2]) if n > 2 else 1)
+        doms = {}
+        for p_ in ("pi1", "pi2"):
+            z = sorted(rng.sample(xs, rng.randint(1, len(xs))))
+            doms[p_] = {"Z": z, "W": [v for v in vs if v not in z and rng.random() < 0.9] or [y]}
+        yield {"nodes": vs, "directed": d, "undirected": u, "X": xs, "Y": [y], "domains": doms, "seed": rng.randrange(1 << 30),
+               "reverse_dicts": rng.random() < 0.5}
+
+
 def _eval(c):
     try:
         if c.get("helper"):
@@ -407,7 +424,7 @@ def _eval(c):
 def extra(rep, repo, registry, known_open):
     t0 = time.time()
     rng = random.Random(repr((rep.seed, "C05")))
-    cases = list(gen_cases(rep.tier, rng))
+    cases = list(gen_cases(rep.tier, rng)) + list(gen_two_domain_cases(rep.tier, random.Random(repr((rep.seed, "C05-2dom")))))
     line_cases = list(gen_line_cases(rep.tier, random.Random(repr((rep.seed, "C05-lines")))))
     concrete.y0mod("y0.dsl")
     fails, errs = [], []
@@ -456,7 +473,8 @@ def extra(rep, repo, registry, known_open):
     if errs:
         rep.errors.append(f"C05 bounded part: {len(errs)} evaluation errors, e.g. {errs[0]}")
     rep.extra_parts.append({"name": "trso-vs-multi-domain-scm", "kind": "bounded", "decides": True, "evaluations": len(cases),
-                            "scope": "every ADMG on 2-3 nodes and sampled 4-5 node ADMGs, sampled queries, 0-2 source domains with 1-2 experiments and surrogate outcomes each",
+                            "scope": "every ADMG on 2-3 nodes and sampled 4-5 node ADMGs, sampled queries, 0-2 source domains with 1-2 experiments and surrogate outcomes each; "
+                                     "plus a family with two source domains usable at the same step (both dictionary orders)",
                             "failures": len(fails), "wall_s": round(time.time() - t0, 1)})
     if fails:
         c, why = min(fails, key=lambda f: (len(f[0]["nodes"]), len(f[0]["domains"]), len(f[0]["directed"]) + len(f[0]["undirected"])))
